@@ -30,6 +30,7 @@ build_cli() {
 case "${1:-}" in
   build) build; build_race; build_cli ;;
   selftest) build; exec "$OUT/bin/xvmon" selftest ;;
+  refcheck) build; exec "$OUT/bin/xvmon" refcheck "${2:-200}" ;;
   replay) build; build_cli; exec "$OUT/bin/xvmon" replay "$2" ;;
   C14) build; build_race; exec "$OUT/bin/xvmon" check "$1" "${2:-${VERIF_TIER:-quick}}" ;;
   C20) build; build_cli; exec "$OUT/bin/xvmon" check "$1" "${2:-${VERIF_TIER:-quick}}" ;;
